@@ -37,10 +37,13 @@ MUTANTS = [
     m("c14-twin-alias", None, WB, "            for i, _, rng_state in indexed_chain_outputs:\n                chain_rng = per_chain_kwargs[i][\"rng\"]\n                chain_rng.bit_generator.state = rng_state\n", twin=True),
     m("c14-twin-sorted", None, "            indexed_chain_outputs.sort(key=lambda indexed_output: indexed_output[0])\n            chain_outputs = [outp for _, outp, _ in indexed_chain_outputs]", "            indexed_chain_outputs = sorted(indexed_chain_outputs, key=lambda item: item[0])\n            chain_outputs = [outp for _, outp, _ in indexed_chain_outputs]", twin=True),
     m("c14-single-chain-shortcut", "R1", "    if bit_generator is not None and hasattr(bit_generator, \"jumped\"):\n        return [default_rng(bit_generator.jumped(i)) for i in range(n_chain)]", "    if bit_generator is not None and n_chain == 1:\n        return [default_rng(bit_generator)]\n    if bit_generator is not None and hasattr(bit_generator, \"jumped\"):\n        return [default_rng(bit_generator.jumped(i)) for i in range(n_chain)]", key="branch-on-chain-count"),
-    m("c14-writeback-only-without-exception", "R4", WB, '            if exception is None:\n                for i, _, rng_state in indexed_chain_outputs:\n                    per_chain_kwargs[i]["rng"].bit_generator.state = rng_state\n'),
+    # after an interrupt sample_chains returns and the per-chain generators (local to the call) are never used again:
+    # skipping the write-back then is unobservable - a twin (the structural rule used to demand it unconditionally)
+    m("c14-twin-writeback-only-without-exception", None, WB, '            if exception is None:\n                for i, _, rng_state in indexed_chain_outputs:\n                    per_chain_kwargs[i]["rng"].bit_generator.state = rng_state\n', twin=True),
     m("c14-writeback-skips-first", "R4", WB, '            for i, _, rng_state in indexed_chain_outputs[1:]:\n                per_chain_kwargs[i]["rng"].bit_generator.state = rng_state\n'),
     m("c14-twin-writeback-unpack-all", None, WB, '            for indexed_output in indexed_chain_outputs:\n                i, _, rng_state = indexed_output\n                per_chain_kwargs[i]["rng"].bit_generator.state = rng_state\n', twin=True),
     {'id': 'c14-collate-reversed', 'prop': 'C14', 'rule': 'R6', 'edits': [{'file': 'samplers.py', 'old': '        final_states_stack.append(final_state)\n', 'new': '        final_states_stack.insert(0, final_state)\n'}]},
     {'id': 'c14-writeback-to-mirrored-chain', 'prop': 'C14', 'rule': 'R6', 'edits': [{'file': 'samplers.py', 'old': '                per_chain_kwargs[i]["rng"].bit_generator.state = rng_state\n', 'new': '                per_chain_kwargs[n_chain - 1 - i]["rng"].bit_generator.state = rng_state\n'}], 'key': 'stream-foreign'},
     {'id': 'c14-twin-sequential-index-loop', 'prop': 'C14', 'rule': None, 'edits': [{'file': 'samplers.py', 'old': '    for chain_index, (chain_iterator, chain_kwargs) in enumerate(\n        zip(chain_iterators, per_chain_kwargs, strict=True),\n    ):', 'new': '    pairs = list(zip(chain_iterators, per_chain_kwargs, strict=True))\n    for chain_index in range(len(pairs)):\n        chain_iterator, chain_kwargs = pairs[chain_index]'}], 'twin': True},
+    {'id': 'c14-stats-template-on-class', 'prop': 'C14', 'rule': 'R8', 'key': 'statistics-dict-shared', 'edits': [{'file': 'transitions.py', 'old': '        self._statistic_types["metrop_accept_prob"] = (np.float64, np.nan)\n', 'new': '        self._statistic_types["metrop_accept_prob"] = (np.float64, np.nan)\n        self._stats_template = {"convergence_error": False, "non_reversible_step": False}\n'}, {'file': 'transitions.py', 'old': '        stats = {\n            "convergence_error": False,\n            "non_reversible_step": False,\n            "step_size": self.integrator.step_size,\n        }\n', 'new': '        stats = self._stats_template\n        stats["step_size"] = self.integrator.step_size\n'}]},
 ]
